@@ -49,7 +49,9 @@ BwdScenarios ==
         [] f = "nograd_param"  -> {[fn |-> "backward", fault |-> f, tensors |-> b.tensors, inputs |-> InsertAt(b.inputs, p, Ee), k |-> 0, agg |-> "constant"]
                                      : p \in 1..(Len(b.inputs) + 1)}
         [] f = "agg_wrong_len" -> {[fn |-> "backward", fault |-> f, tensors |-> b.tensors, inputs |-> b.inputs, k |-> k, agg |-> "constant_wrong_len"] : k \in {0, 1}}
-        [] f = "agg_too_few_rows" -> {[fn |-> "backward", fault |-> f, tensors |-> b.tensors, inputs |-> b.inputs, k |-> 0, agg |-> a] : a \in {"krum_too_few", "trimmed_too_few"}}
+        [] f = "agg_too_few_rows" -> {[fn |-> "backward", fault |-> f, tensors |-> b.tensors, inputs |-> b.inputs, k |-> 0, agg |-> a]
+                                     : a \in {"krum_too_few", "trimmed_too_few", "krum_one_short"}     \* far too few rows / exactly one short
+                                            \cup (IF NRowsOfT(b.tensors) % 2 = 0 THEN {"trimmed_one_short"} ELSE {})}
       : f \in BwdFaults } : b \in BwdBases }
 
 MtlRec(b, f, losses, feats, tparams, shared, k) ==
